@@ -106,7 +106,16 @@ fn worker(fd: Arc<File>, shared: Arc<Shared>) {
         assert!(matches!(&*s_guard, State::Started | State::Done(_)));
         drop(s_guard);
 
+        #[cfg(feature = "verif")]
+        let verif_injected = {
+            use std::os::fd::AsRawFd as _;
+            crate::verif::io::before_fd(fd.as_raw_fd(), crate::verif::io::Kind::Fsync)
+        };
         let sync_result = fd.sync_all();
+        #[cfg(feature = "verif")]
+        crate::verif::io::after();
+        #[cfg(feature = "verif")]
+        let sync_result = verif_injected.and(sync_result);
 
         let mut s_guard = shared.s.lock();
         if matches!(&*s_guard, State::HandleDead) {
